@@ -176,7 +176,87 @@ def judge_listing(ctx, reader, got, must, may, limit, kind, w, tok_of):
             ctx.violation('listed id not fetchable on %s cassette: %s' % (kind, type(ex).__name__), dict(w, id=rid))
 
 
+def file_save_faults(ctx, n):
+    """History with storage faults on the file cassette: while one recording is saved, moving / renaming files in the directory fails
+    (disk full, permission, the process is killed at that point). Whatever the save did, later listings hold only ids of saved
+    recordings, each fetchable, without duplicates."""
+    import os
+    from playback.exceptions import NoSuchRecording
+    rng = ctx.rng
+    for i in range(n):
+        with open_box('file') as box:
+            c = box.cassette
+            saved, failed = [], []
+            for k in range(rng.randrange(2, 7)):
+                rec = c.create_new_recording(rng.choice(['Op', 'OpX']))
+                rec.add_metadata({'k': k})
+                faulty = rng.random() < 0.4
+                orig = (os.rename, os.replace)
+                if faulty:
+                    def boom(*a, **kw):
+                        raise OSError(28, 'No space left on device (injected)')
+                    os.rename = os.replace = boom
+                try:
+                    c.save_recording(rec)
+                    saved.append(rec.id)
+                    if not faulty or rng.random() < 0.5:
+                        c.save_recording(_again(rec.id, k))          # saved again under its id (fault-free)
+                except OSError:
+                    failed.append(rec.id)
+                    ctx.count('file_saves_failed_by_a_storage_fault')
+                finally:
+                    os.rename, os.replace = orig
+            ctx.case(('file_save_faults', i, len(saved), len(failed)))
+            ctx.count('file_save_fault_histories')
+            reader = box.reader()
+            for cat in ('Op', 'OpX'):
+                try:
+                    got = list(reader.iter_recording_ids(cat))
+                except Exception as ex:
+                    ctx.violation('listing on the file cassette raised %s after a save was hit by a storage fault' % type(ex).__name__, {'file_save_faults': True})
+                    continue
+                want = sorted(r for r in saved if r.split('/')[0] == cat)
+                listed_failed = [r for r in got if r in failed]
+                for rid in got:
+                    try:
+                        reader.get_recording(rid)
+                    except NoSuchRecording:
+                        ctx.violation('file cassette lists an id that is not fetchable after a save was hit by a storage fault', {'file_save_faults': True, 'id_of_failed_save': rid in failed})
+                        break
+                if sorted(set(got) - set(failed)) != want or len(got) != len(set(got)):
+                    ctx.violation('listing on the file cassette after a storage fault during a save: %d ids, %d saved (duplicates: %s)' % (
+                        len(got), len(want), len(got) != len(set(got))), {'file_save_faults': True, 'failed_listed': len(listed_failed)})
+
+
+def _again(rid, k):
+    from playback.recordings.memory.memory_recording import MemoryRecording
+    r = MemoryRecording(rid)
+    r.add_metadata({'k': k, 'again': True})
+    return r
+
+
+def judge_concurrent(ctx, cassette, ids, kind, w):
+    ctx.count('listings_after_concurrent_saves')
+    try:
+        got = list(cassette.iter_recording_ids('Op'))
+        flt = list(cassette.iter_recording_ids('Op', metadata={'who': 0}))
+    except Exception as ex:
+        ctx.violation('listing after concurrent saves on one %s cassette raised %s' % (kind, type(ex).__name__), dict(w, error=repr(ex)[:200]))
+        return
+    want = sorted(ids.values())
+    if sorted(got) != want:
+        ctx.violation('listing after concurrent saves through one %s cassette: %d ids listed, %d recordings were saved (duplicates: %s)' % (
+            kind, len(got), len(want), len(got) != len(set(got))), dict(w, unknown=len(set(got) - set(want)), missing=len(set(want) - set(got))))
+    elif sorted(flt) != sorted(rid for (i, k), rid in ids.items() if i == 0):
+        ctx.violation('filtered listing after concurrent saves through one %s cassette is not exact' % kind, w)
+
+
 def run(ctx):
+    if ctx.shard == 0:
+        from vlib import concsaves
+        for kind, nt, per in (('memory', 2, 2), ('file', 2, 1), ('memory', 3, 1)):
+            concsaves.explore(ctx, kind, nt, per, judge_concurrent, ctx.quick)
+    file_save_faults(ctx, ctx.budget(20, 1000))
     n = ctx.budget(150, 5000)
     base = ctx.seed * 1000003 + ctx.shard * 100000
     for i in range(n):
@@ -187,4 +267,7 @@ def run(ctx):
 
 
 def replay(ctx, w):
+    if w.get('concurrent_saves') or w.get('file_save_faults'):
+        print('scheduler / fault-history witness: re-run the check (the exploration is deterministic)')
+        return
     run_case(ctx, w['case_seed'])
